@@ -119,6 +119,10 @@ def check(ctx):
     ctx.floor("C04.b", len(stored), 2, "callback closures stored by the crate (SystemCommandCallback::new, ReactCommands::once)")
     for c in stored:
         subjects.append((c, linear.Res("arg", 3), lib.fkey(c)))
+    # the stored callback's own entry point hands the cleanup to the boxed closure (every run goes through it)
+    for b_ in prog.bodies:
+        if lib.tail(b_.path, 2) == A.names(prog)["callback_run"] and b_.arg_count == 3:
+            subjects.append((b_, linear.Res("arg", 3), lib.fkey(b_)))
     for body, res, label in subjects:
         ctx.touch(body, calls=len(list(body.iter_calls())))
         counts = L.summary(body, res)
